@@ -322,6 +322,9 @@ def run(ctx):
     f = mod.func('Corr.fit')
     missing = pat.has_all(f, ['fitrange is None', 'fitrange = self.prange', 'fitrange = [0, self.T - 1]'])
     ctx.check('C15-D5', 'correlators.py:Corr.fit#default-range', not missing, 'default fit range = prange if set, else all timeslices [0, T-1] (inclusive)', 'missing %s' % missing, mod.loc(f))
+    from . import C07
+    C07.explicit_range_wins(ctx, 'C15-D5', mod, 'Corr.fit', 'fitrange')
+    C07.explicit_range_wins(ctx, 'C15-D5', mod, 'Corr.plateau', 'plateau_range')
     pl = mod.func('Corr.plateau')
     missing = pat.has_all(pl, ['plateau_range = self.prange'])
     ctx.check('C15-D5', 'correlators.py:Corr.plateau#default-range', not missing, 'default plateau range = prange', 'missing %s' % missing, mod.loc(pl))
